@@ -8,6 +8,8 @@ PROPS = 'Props/C01.v' if os.path.exists(os.path.join(CC.COQ, 'Props/C01.v')) els
 
 
 def judge(ck, c, r, I, M, S, sup):
+    if c['stream'] == 'abc-spelling' and I == 0 and S == 2:
+        return 'a value that does not conform to the annotation (collections.abc spelling) was accepted'
     if not sup:
         return None
     if I == 0 and S == 2:
@@ -20,4 +22,9 @@ def judge(ck, c, r, I, M, S, sup):
 
 
 def run(tier, seed, replay=None):
-    return CC.run('C01', tier, seed, replay, PROPS, judge)
+    def extra(ck, cases):
+        if replay is None or replay.get('case', {}).get('obs') == 'named':
+            CC.named_stream(ck, 'sound')
+        if replay is not None and replay.get('case', {}).get('obs') == 'named':
+            cases.clear()
+    return CC.run('C01', tier, seed, replay, PROPS, judge, extra_streams=extra)
